@@ -2,9 +2,18 @@
 
 package promapi
 
-import "time"
+import (
+	"bytes"
+	"time"
+)
 
 // VerifSliceRange exposes the unexported sliceRange to the C13 harness (overlay, never part of /repo).
 func VerifSliceRange(start, end time.Time, resolution, sliceSize time.Duration) []TimeRange {
 	return sliceRange(start, end, resolution, sliceSize)
+}
+
+// VerifStreamSampleStream runs the unexported streaming decoder of a query_range response body (before ExpandRangesEnd).
+func VerifStreamSampleStream(body []byte, step time.Duration) (MetricTimeRanges, error) {
+	r, _, err := streamSampleStream(bytes.NewReader(body), step)
+	return r, err
 }
